@@ -57,6 +57,22 @@ CHECKS = {
           "exhaustive part is the design model (3 workers, 4-5 chunks), the binding is the multi-process trace. The overlay engine's "
           "internals are not modelled."),
     technique="TLA+ memo machine: chained trace validation of multi-process determinism runs + TLC model of merge / iteration order", design_ref="DESIGN.md 5 C20"),
+ "C16": dict(
+    category="other",
+    text=("(A) Gen_Sphere.tla: a step machine in integer quarter degrees (longitude wrap with both antimeridian spellings, bearing "
+          "normalisation, reflection over a pole, rhumb parallels at 0 / +-60 deg, rhumb meridians) whose every reachable state - "
+          "40 600 axis journeys on the 15 deg grid, 371 680 on the 5 deg grid - is one replay case with exact integer expectations for "
+          "destination, distance, bearing, round trip, ratio points, points_along_line and Length in Haversine (default and custom "
+          "radius), Rhumb, Geodesic (equator exactly, meridians relationally) and the legacy traits; TLC holds the machine to its "
+          "closed form on every state. (B) Trace_Sphere.tla judges 10^5 (5*10^5) recorded probes of random point pairs / line strings "
+          "per run, each event independently in two-limb integer arithmetic over geo's own quantised outputs: non-negativity, "
+          "d(a,a) = 0, symmetry, bearing range, round-trip closure <= 1 mm, ratio division and additivity <= 1 mm, Length = sum."),
+    note=("Level 'other': TLA+ has no trigonometry, so away from the exact axis journeys the specification only relates geo's outputs to "
+          "each other; an error common to distance, bearing and destination is invisible to (B), and numeric accuracy against geodetic "
+          "ground truth is not covered. Laws are demanded away from poles / antipodes as the property says; nearly east-west rhumb "
+          "courses are exempted for random pairs and probed by three pinned events (known findings KF-04..06). Trusted: TLC, the "
+          "pi R / 180 unit conversion and f64 quantisation in the harness."),
+    technique="TLA+ axis-journey step machine enumerated by TLC (spec->impl replay) + relational laws as a TLC trace validator (impl->spec)", design_ref="DESIGN.md 5 C16"),
  "C18": dict(
     text=("PolySession.tla is the state machine of Polygon / LineString / Rect under the public constructor and mutator calls "
           "(closures = edit sequences + Ok/Err exit). TLC model-checks RingsClosed and RectOrdered over all histories within the "
